@@ -354,14 +354,102 @@ func runC05(c *ctx) {
 		nA, nB = 700*c05ThoroughScale, 900*c05ThoroughScale
 	}
 	// ids [0,nA): clause 1; [nA, nA+nB): clause 2
-	srchRun(c, 5, nA+nB, only, func(id int, r *rand.Rand, o *srchOut) {
-		if id < nA {
+	// ids [nA+nB, nA+nB+2): directed search for positions whose hashes agree in one 32-bit half (sizes 3 and 4)
+	srchRun(c, 5, nA+nB+2, only, func(id int, r *rand.Rand, o *srchOut) {
+		switch {
+		case id < nA:
 			c05NoTable(tier, id, r, o)
-		} else {
+		case id < nA+nB:
 			c05Table(tier, id, r, o)
+		default:
+			c05Collide(tier, id, 3+id-nA-nB, r, o)
 		}
 	})
 	_ = ai.WinThreshold
 }
 
 const c05ThoroughScale = 10
+
+// c05Collide: the table identifies positions by their 64-bit hash (the theorems carry NoCollision as a hypothesis).  A change
+// that compares only PART of the hash makes collisions 2^32 times likelier and no random test would ever meet one - so they are
+// searched for: among a few hundred thousand distinct live positions of one game configuration, pairs whose hashes agree in the
+// upper or in the lower 32 bits are found by bucketing (birthday bound: ~N^2/2^33 pairs).  Each pair whose members have different
+// forced results is run through ONE engine with a one-entry table (both positions share the slot): the second answer is judged by
+// the exhaustive solver.  With full 64-bit keys the two positions are simply different entries.
+func c05Collide(tier string, id int, size int, r *rand.Rand, o *srchOut) {
+	n := 300000
+	if tier == "thorough" {
+		n = 1500000
+	}
+	cfg := tak.Config{Size: size}
+	type rec struct {
+		p *tak.Position
+		h uint64
+	}
+	seen := map[string]bool{}
+	byHi := map[uint32]int{}
+	byLo := map[uint32]int{}
+	var all []rec
+	type pair struct{ a, b int }
+	var pairs []pair
+	for tries := 0; len(all) < n && tries < 40*n; tries++ {
+		policy := []int{4, 4, -1, 0, 1, 3}[r.Intn(6)]
+		ps, _ := randomGame(r, cfg, 4+r.Intn(8*size), policy, false)
+		for _, p := range ps {
+			if p.MoveNumber() < 2 {
+				continue
+			}
+			if over, _ := p.GameOver(); over {
+				continue
+			}
+			k := retroKey(p)
+			if seen[k] {
+				continue
+			}
+			seen[k] = true
+			h := p.Hash()
+			i := len(all)
+			all = append(all, rec{p, h})
+			if j, ok := byHi[uint32(h>>32)]; ok {
+				pairs = append(pairs, pair{j, i})
+			} else {
+				byHi[uint32(h>>32)] = i
+			}
+			if j, ok := byLo[uint32(h)]; ok {
+				pairs = append(pairs, pair{j, i})
+			} else {
+				byLo[uint32(h)] = i
+			}
+		}
+	}
+	o.stat(fmt.Sprintf("collide_size%d_distinct_positions", size), int64(len(all)))
+	o.stat(fmt.Sprintf("collide_size%d_half_hash_pairs", size), int64(len(pairs)))
+	depth := 3
+	cid := fmt.Sprintf("id=%s:%d", tier, id)
+	for _, pr := range pairs {
+		if all[pr.a].h == all[pr.b].h {
+			o.printf("ORACLE-FAIL hash-collision-64 | %s %s ; %s | two distinct positions of one game share the 64-bit hash %d | distinct hashes", cid, enc(all[pr.a].p), enc(all[pr.b].p), all[pr.a].h)
+			continue
+		}
+		for _, ord := range [][2]int{{pr.a, pr.b}, {pr.b, pr.a}} {
+			A, B := all[ord[0]].p, all[ord[1]].p
+			sc := srchCfg{size: size, depth: depth, evk: r.Intn(2), nosort: r.Intn(2) == 0, nonull: true, noreduce: true, tableMem: 40}
+			orc := newSrchOracle(sc)
+			tA, tB := orc.sign(A, depth), orc.sign(B, depth)
+			if tB == 0 || tA == tB {
+				o.stat("collide_pairs_same_or_no_result", 1)
+				continue
+			}
+			e := newSrchEngine(sc)
+			e.analyze(A, 0)
+			rr := e.analyze(B, 0)
+			o.stat("collide_pairs_run", 1)
+			if len(rr.pv) == 0 {
+				o.printf("ORACLE-FAIL no-result | %s half-hash pair %s then %s | no line, not cancelled | an uncancelled search of a live position returns a line", cid, enc(A), enc(B))
+				continue
+			}
+			where := fmt.Sprintf("%s engine(%s, %d table entries): Analyze(%s) then Analyze(%s); the two hashes %d and %d agree in one 32-bit half", cid, sc.String(), e.tableLen(), encAbs(A), encAbs(B), all[ord[0]].h, all[ord[1]].h)
+			srchCheckVerdict(o, orc, "tt-reused-wrong-verdict", where, B, rr, orc.sign(B, rr.st.Depth), depth)
+		}
+	}
+}
